@@ -79,7 +79,7 @@ PROPS["C20"] = {
         "pkg": "pkg/packet",
         "tests": [T("TestC20Exhaustive", {"checks": 1, "env": {"C20_LEN": 3}}, {"checks": 1, "env": {"C20_LEN": 5}, "timeout": 3000}),
                   T("TestC20Random", {"checks": 600, "shards": 4, "env": {"C20_MAXU": 10}},
-                    {"checks": 3000, "shards": 16, "env": {"C20_MAXU": 40}})],
+                    {"checks": 10000, "shards": 16, "env": {"C20_MAXU": 40}})],
     }],
 }
 
@@ -177,7 +177,7 @@ PROPS["C03"] = {
     "units": [{
         "pkg": "command",
         "tests": [T("TestC03Detection", {"checks": 80, "shards": 10}, {"checks": 1500, "shards": 16}),
-                  T("TestC03Netns", {"checks": 10, "shards": 8}, {"checks": 60, "shards": 12}),
+                  T("TestC03Netns", {"checks": 10, "shards": 8}, {"checks": 250, "shards": 12}),
                   T("TestC03Burst", {"checks": 3, "shards": 4}, {"checks": 20, "shards": 8}),
                   T("TestC03NetnsQuiet", {"checks": 1, "shards": 3}, {"checks": 6, "shards": 6})],
     }],
@@ -204,7 +204,7 @@ PROPS["C11"] = {
         "pkg": "command", "race": True,
         "tests": [T("TestC11RoundTrip", {"checks": 600, "shards": 4}, {"checks": 6000, "shards": 8}),
                   T("TestC11CacheFile", {"checks": 300, "shards": 4, "gomaxprocs": [1, 4, 16, 2]}, {"checks": 3000, "shards": 16, "gomaxprocs": [1, 4, 16, 2]}),
-                  T("TestC11Commands", {"checks": 25, "shards": 8}, {"checks": 300, "shards": 16})],
+                  T("TestC11Commands", {"checks": 25, "shards": 8}, {"checks": 600, "shards": 16})],
     }],
 }
 
@@ -232,7 +232,7 @@ PROPS["C16"] = {
     "max_parallel": 12,
     "units": [{
         "pkg": "command",
-        "tests": [T("TestC16ExitDelay", {"checks": 16, "shards": 12}, {"checks": 120, "shards": 16}),
+        "tests": [T("TestC16ExitDelay", {"checks": 16, "shards": 12}, {"checks": 300, "shards": 16}),
                   T("TestC16AppExitDelay", {"checks": 10, "shards": 4}, {"checks": 100, "shards": 8})],
     }],
 }
@@ -245,8 +245,8 @@ PROPS["C19"] = {
     "max_parallel": 12,
     "units": [{
         "pkg": "command",
-        "tests": [T("TestC19Live", {"checks": 80, "shards": 8}, {"checks": 400, "shards": 16}),
-                  T("TestC19Command", {"checks": 8, "shards": 6}, {"checks": 80, "shards": 12})],
+        "tests": [T("TestC19Live", {"checks": 80, "shards": 8}, {"checks": 1500, "shards": 16}),
+                  T("TestC19Command", {"checks": 8, "shards": 6}, {"checks": 250, "shards": 12})],
     }],
 }
 
@@ -310,6 +310,6 @@ PROPS["C17"] = {
     "max_parallel": 16,
     "units": [{
         "pkg": "command",
-        "tests": [T("TestC17Netns", {"checks": 30, "shards": 16}, {"checks": 200, "shards": 16})],
+        "tests": [T("TestC17Netns", {"checks": 30, "shards": 16}, {"checks": 700, "shards": 16})],
     }],
 }
